@@ -38,7 +38,56 @@ def _strip_line(loc):
     return re.sub(r":\d+(:\d+)?\s*$", "", loc.strip())
 
 
+_VG_HEAD = re.compile(r"^==\d+== (Conditional jump or move depends on uninitialised value|Use of uninitialised value|Invalid read|Invalid write|"
+                      r"Invalid free|Mismatched free|Source and destination overlap|Syscall param .* uninitialised|Jump to the invalid address|"
+                      r"Process terminating with default action of signal 11)")
+_VG_FRAME = re.compile(r"^==\d+==\s+(?:at|by) 0x[0-9A-Fa-f]+: (.*)$")
+_VG_RUNTIME = ("vgpreload", "/valgrind/", "libc.so", "libc-", "libstdc++", "libgcc", "ld-linux", "(dl-", "(rtld-", "strcmp-", "strdup.c", "memmove-", "memcpy", "memset-")
+
+
+def parse_valgrind(text):
+    """memcheck report blocks; 'repo' = the innermost frame that is not libc / the valgrind preload lies in repository code."""
+    reports = []
+    lines = text.splitlines()
+    i, n = 0, len(lines)
+    while i < n:
+        m = _VG_HEAD.match(lines[i])
+        if not m:
+            i += 1
+            continue
+        block = [lines[i]]
+        frames = []
+        j = i + 1
+        while j < n and re.match(r"^==\d+==\s+\S", lines[j]):
+            fm = _VG_FRAME.match(lines[j])
+            if fm:
+                frames.append(fm.group(1))
+            elif frames and not lines[j].strip().endswith(":"):
+                pass
+            if re.match(r"^==\d+==\s+(Address|Uninitialised value was)", lines[j]):
+                # the allocation / origin stack that follows is context, not the faulting stack
+                while j < n and re.match(r"^==\d+==\s+\S", lines[j]):
+                    block.append(lines[j])
+                    j += 1
+                break
+            block.append(lines[j])
+            j += 1
+        inner = None
+        for f in frames:
+            if not any(r in f for r in _VG_RUNTIME):
+                inner = f
+                break
+        repo = bool(inner) and _is_repo(inner)
+        fr = re.sub(r"\((?:in )?/\S*/", "(", inner or "?")
+        fr = re.sub(r":\d+\)", ")", fr)[:90]
+        reports.append({"kind": "valgrind:" + m.group(1)[:40].strip().replace(" ", "-"), "repo": repo, "frame": fr, "text": "\n".join(block[:60])})
+        i = j
+    return reports
+
+
 def parse(text):
+    if re.search(r"^==\d+== ", text, re.M) and "AddressSanitizer" not in text:
+        return parse_valgrind(text)
     reports = []
     lines = text.splitlines()
     i = 0
